@@ -70,20 +70,20 @@ RX = [
     # ---- C09: regular-expression datatypes ("prefix match, then compare with the whole string") ----
     {'id': 'rx:datatypes.basic-key', 'source': 'ZConfig.datatypes:BasicKeyConversion()._rx',
      'checks': [
-         {'label': 'accepts-exactly', 'kind': 'match-then-whole', 'carries': 'C09',
+         {'label': 'accepts-exactly', 'kind': 'match-then-whole', 'carries': 'C09,C10',
           'spec': r'[a-zA-Z][-._a-zA-Z0-9]*'},       # a letter followed by letters, digits, '-', '.', '_'
-         {'label': 'first-match-equals-full-language', 'kind': 'first-equals-full', 'carries': 'C09'},
+         {'label': 'first-match-equals-full-language', 'kind': 'first-equals-full', 'carries': 'C09,C10'},
      ]},
     {'id': 'rx:datatypes.identifier', 'source': 'ZConfig.datatypes:IdentifierConversion()._rx',
      'checks': [
-         {'label': 'accepts-exactly', 'kind': 'match-then-whole', 'carries': 'C09', 'spec': IDENT},
-         {'label': 'first-match-equals-full-language', 'kind': 'first-equals-full', 'carries': 'C09'},
+         {'label': 'accepts-exactly', 'kind': 'match-then-whole', 'carries': 'C09,C10', 'spec': IDENT},
+         {'label': 'first-match-equals-full-language', 'kind': 'first-equals-full', 'carries': 'C09,C10'},
      ]},
     {'id': 'rx:datatypes.dotted-name', 'source': 'ZConfig.datatypes:DottedNameConversion()._rx',
      'checks': [
-         {'label': 'accepts-exactly', 'kind': 'match-then-whole', 'carries': 'C09',
+         {'label': 'accepts-exactly', 'kind': 'match-then-whole', 'carries': 'C09,C10',
           'spec': IDENT + r'(?:\.' + IDENT + r')*'},
-         {'label': 'first-match-equals-full-language', 'kind': 'first-equals-full', 'carries': 'C09'},
+         {'label': 'first-match-equals-full-language', 'kind': 'first-equals-full', 'carries': 'C09,C10'},
      ]},
     {'id': 'rx:datatypes.dotted-suffix', 'source': 'ZConfig.datatypes:DottedNameSuffixConversion()._rx',
      'checks': [
